@@ -286,8 +286,22 @@ class World:
                 return
             self.count("refusals_observed")
             # narrow relaxation: each addressed present key holds its old or its new value
-            got = self._peek(self.h[hname])
-            if got is not None and "__broken__" not in got and "__dupkeys__" not in got:
+            try:
+                got = self._peek(self.h[hname])
+            except Exception:
+                got = None
+            if got is None:
+                # private layout unreadable (a refactored library): ask through the public API instead
+                got = {}
+                for kk in keys:
+                    if kk in model:
+                        try:
+                            r1 = _flat(self.h[hname][kk])
+                            if len(r1) == 1:
+                                got[kk] = r1[0]
+                        except Exception:
+                            pass
+            if "__broken__" not in got and "__dupkeys__" not in got:
                 for j, kk in enumerate(keys):
                     if kk in model:
                         new = _pyval(per[j]) if per is not None else _pyval(val)
